@@ -226,6 +226,20 @@ class Shadow:
             for k in scanned_ok:
                 if k not in needed:
                     self.built[k] = e
+        # what a rule RECORDS must be what its task REQUESTED in this execution (value requests incl. the dynamic ones seen as deliveries beyond the
+        # declared slots, single-use requests - cleaned only at the next scan -, must-follow keys, discovered dependencies): nothing kept from an
+        # earlier execution, nothing lost
+        if not aborted and not any(x.startswith("deps-unavailable") for x in b["other"]) and not any(x.startswith("deps-unavailable") for x in b["events"]):
+            for k in created:
+                if k not in completed or k in self.uncertain:
+                    continue
+                rr = rules.get(k, DEFAULT_RULE)
+                nfix = len(rr.get("req", [])) + len(rr.get("single", []))
+                dyn = [int(l.split(" ")[3]) for l in b["events"] if l.startswith("provide %d " % k) and int(l.split(" ")[2]) >= nfix]
+                want = sorted(list(rr.get("req", [])) + list(rr.get("single", [])) + list(rr.get("follow", [])) + list(rr.get("disc", [])) + dyn)
+                got = sorted(b["deps"].get(k, []))
+                if want != got:
+                    errs.append(("deps-not-what-was-requested", "rule %d ran and requested %s but its recorded dependencies are %s" % (k, want, got)))
         for k, d in b["deps"].items():
             self.deps[k] = d
         for l in b.get("db", []):
